@@ -143,6 +143,15 @@ pub fn run(run: &mut Run) {
         }
         acc.outcome2("history", "visited");
     });
+    // cross-kind histories ending in a probe
+    crate::explore::stateless(
+        run,
+        "C17",
+        "MIXSEQ (every kind of call on one context), probes judged",
+        &crate::props::stateprops::mixed_machine(),
+        if run.tier.thorough() { 5 } else { 4 },
+        &|d: &crate::explore::Diff, h: &[Event]| d.aspect == crate::explore::Aspect::Result && matches!(h.last(), Some(Event::GetLength(_))),
+    );
     run.sweep_chunked("byte0=0x46 prefixes x 300-byte continuation", 1 << 16, |acc, lo, hi| {
         let owned: Vec<Owned> = specs.iter().map(|s| Owned::new(&s.cfg)).collect();
         let mut buf = Vec::with_capacity(320);
@@ -193,6 +202,16 @@ pub fn run(run: &mut Run) {
 }
 
 pub fn replay(case: &Value) -> Result<ReplayOut, String> {
+    if case["check"].as_str() == Some("history") {
+        let (diffs, _last, observed) = crate::explore::replay_history(case)?;
+        let history: Vec<Event> = get_de(case, "history")?;
+        let v = diffs
+            .iter()
+            .filter(|d| d.aspect == crate::explore::Aspect::Result && matches!(history.last(), Some(Event::GetLength(_))))
+            .map(|d| d.text.clone())
+            .collect();
+        return Ok(ReplayOut { violations: v, observed });
+    }
     if case["check"].as_str() == Some("probe-history") {
         let spec: CtxSpec = get_de(case, "spec")?;
         let input = get_hex(case, "input")?;
